@@ -178,6 +178,37 @@ def rule_PL1(ctx, tier):
         rr.fail("unrecorded[%s]" % ",".join(fs),
                 "reply class {%s}: the per-tower loop reaches the next tower / the end of the handler without calling any of add_appointment_receipt / add_pending_appointment / add_invalid_appointment / flag_misbehaving_tower — the appointment is left in none of the durable states for that tower" % ", ".join(fs),
                 where=b.line_of(x))
+    # what is left pending is handed to the retry manager in the same breath (unless the tower is Unreachable: its retrier idles
+    # and reloads from disk when it wakes); otherwise no retrier is created or fed for it and it waits for the next restart.
+    # (Whether the hook also moves the tower's status is not judged: Retrier::start does that itself.)
+    send_sites = {bb for bb, t in b.calls() if (call_target(t) or "").endswith("watchtower_client::send_to_retrier")}
+    for x in sorted(bb for bb, t in b.calls() if (call_target(t) or "") == WT + "add_pending_appointment"):
+        memo = {}
+
+        def reaches_send(bb):
+            if bb in memo:
+                return memo[bb] is not False
+            if bb in send_sites:
+                memo[bb] = True
+                return True
+            if bb == head or b.term(bb)["k"] == "return":
+                memo[bb] = False
+                return False
+            memo[bb] = None
+            res = True
+            sf = ctx.pf.switch_facts(b, bb) if b.term(bb)["k"] == "switch" else {}
+            for s_ in b.succ(bb):
+                if any(f[0] == "truth" and f[2] is True and has_call(f[1], "TowerStatus::is_unreachable") for f in sf.get(s_, ())):
+                    continue   # idle retrier: the data stays on disk only
+                if not reaches_send(s_):
+                    res = False
+                    break
+            memo[bb] = res
+            return res
+        if all(reaches_send(s_) for s_ in b.succ(x)):
+            rr.ok("pending appointment handed to the retry manager (unless the tower is Unreachable)")
+        else:
+            rr.fail("pending-not-sent-to-retrier", "on_commitment_revocation stores a pending appointment and moves on without `send_to_retrier` on a path where the tower is not known to be Unreachable: no retrier is created or fed, the appointment waits for the next restart", where=b.line_of(x))
     rr.require_floor(6, "reply classes")
     return rr
 
@@ -730,13 +761,33 @@ def rule_PL6(ctx, tier):
     before = ctx.pf.called_before(m)
     for bb in loads:
         st = og.show(arg_origin(ctx, m, bb, 2))
-        setst = [x for x in sites(m, "watchtower_plugin::retrier::Retrier::set_status") if bb in m.reachable(x)]
+        # the wake-up itself: set_status(Stopped) on the straight path to this reload (not the other wake-up's, a loop turn away)
+        turn = {y for y, t_ in m.calls() if (call_target(t_) or "").split("::")[-1] in ("try_recv", "sleep")}
+        setst = [x for x in sites(m, "watchtower_plugin::retrier::Retrier::set_status")
+                 if "RetrierStatus::Stopped" in og.show(arg_origin(ctx, m, x, 1)) and bb in m.reachable(x, stop=lambda y: y in turn)]
         if "AppointmentStatus::Pending" in st and setst:
             rr.ok("idle wake-up reloads pending locators from disk")
         else:
-            rr.fail("idle-wake:reload", "an idle retrier is woken without reloading its pending appointments from the database", where=m.line_of(bb))
+            rr.fail("idle-wake:reload", "an idle retrier's pending appointments are reloaded from the database without the retrier being set to Stopped on that path (or the reload is not of the Pending ones): it stays Idle with data in memory, is never started, and the timed wake-up reloads again and again", where=m.line_of(bb))
     if len(loads) != 2:
         rr.fail("idle-wake:sites=%d" % len(loads), "expected 2 idle wake-up sites (manual, timed) reloading from disk", where=m.span)
+    # what the manager receives for a known tower whose retrier is not idle is added to that tower's pending set before the next turn
+    from .rulekit import reaches_unless
+    adds = sites(m, RM + "add_pending_appointments")
+    turn = {y for y, t_ in m.calls() if (call_target(t_) or "").split("::")[-1] in ("try_recv", "sleep")}
+    ok_edges = switch_succ_with(ctx, m, "variant", "Ok", "try_recv")
+
+    def skip(facts):
+        for f in facts:
+            if f[0] == "truth" and ((f[2] is False and has_call(f[1], "contains_key")) or (f[2] is True and has_call(f[1], "Retrier::is_idle"))):
+                return True
+        return False
+    if not ok_edges or not adds:
+        rr.fail("manager:shape", "manage_retry: cannot find the Ok edge of try_recv / the add_pending_appointments calls (%d/%d)" % (len(ok_edges), len(adds)), where=m.span)
+    elif all(reaches_unless(ctx, m, [succ], adds, turn, skip) for sw, succ in ok_edges):
+        rr.ok("data received for a known tower with a non-idle (or no) retrier is always added to its pending set")
+    else:
+        rr.fail("manager:received-data-dropped", "manage_retry can take a (tower, locators) message off the channel and go to the next one without add_pending_appointments although the tower is known and its retrier is not idle: the appointment is on disk as pending but no retrier will send it", where=m.line_of(ok_edges[0][0]))
     rr.require_floor(14, "PL6 instances")
     return rr
 
@@ -785,6 +836,57 @@ def rule_PL7(ctx, tier):
             rr.ok("%s: known tower -> %s" % (shortfn(mut), shortfn(part)), sample={"rule": "PL7", "mutator": mut, "known-tower arm always reaches": part})
         else:
             rr.fail("memory-only:%s" % shortfn(mut), "`%s` can update the in-memory summary of a known tower without calling `%s`" % (shortfn(mut), shortfn(part)), where=b.span)
+    # ... and the other way round: whenever the partner is called, the in-memory twin of that write happens too (before it on every
+    # path, or after it on every path): a record that is on disk but not in memory is invisible until the next restart
+    def mem_blocks(b, kind):
+        out = set()
+        for bb in b.rpo():
+            if kind[0] == "field":
+                for st in b.blocks[bb]["s"]:
+                    if st["k"] == "assign" and len(st["d"]) >= 2 and st["d"][-1] == "f:" + kind[1]:
+                        out.add(bb)
+            t = b.term(bb)
+            if t["k"] != "call":
+                continue
+            tg = call_target(t) or ""
+            if kind[0] == "set" and "HashSet" in tg and tg.split("::")[-1] == kind[2] and og.show(arg_origin(ctx, b, bb, 0)).endswith("f:" + kind[1]):
+                out.add(bb)
+            if kind[0] == "map" and "HashMap" in tg and tg.split("::")[-1] == kind[2] and og.show(arg_origin(ctx, b, bb, 0)).endswith("f:towers"):
+                out.add(bb)
+            if kind[0] == "call" and tg.endswith(kind[1]):
+                out.add(bb)
+        return out
+    MEM = {
+        WT + "add_update_tower": [("call", "TowerSummary::udpate"), ("map", None, "insert")],
+        WT + "add_appointment_receipt": [("field", "available_slots")],
+        WT + "add_pending_appointment": [("set", "pending_appointments", "insert")],
+        WT + "remove_pending_appointment": [("set", "pending_appointments", "remove")],
+        WT + "add_invalid_appointment": [("set", "invalid_appointments", "insert")],
+        WT + "flag_misbehaving_tower": [("field", "status")],
+        WT + "remove_tower": [("map", None, "remove")],
+    }
+    for mut, kinds_ in MEM.items():
+        b = P.bodies.get(mut)
+        if b is None:
+            continue
+        mb = set()
+        for k_ in kinds_:
+            mb |= mem_blocks(b, k_)
+        for x in sites(b, PAIRS[mut]):
+            # reachable from the entry without passing a memory write?
+            seen, todo = set(), [0]
+            while todo:
+                y = todo.pop()
+                if y in seen or y in mb:
+                    continue
+                seen.add(y)
+                todo.extend(b.succ(y))
+            before_ok = x not in seen
+            after_ok = bool(mb) and always_reaches(b, b.succ(x), mb)
+            if before_ok or after_ok:
+                rr.ok("%s: the in-memory twin of %s happens on every path (%s)" % (shortfn(mut), shortfn(PAIRS[mut]), "before" if before_ok else "after"))
+            else:
+                rr.fail("disk-only-write:%s" % shortfn(mut), "`%s` calls `%s` on a path where the in-memory record is not updated (%s): memory and disk disagree until the next restart — pending work is not retried, slots / status shown are stale" % (shortfn(mut), shortfn(PAIRS[mut]), ", ".join(str(k_[1] or "towers") for k_ in kinds_)), where=b.line_of(x))
     # who may call the DBM writers
     writers = set(PAIRS.values())
     for w in sorted(writers):
@@ -817,6 +919,44 @@ def rule_PL7(ctx, tier):
         "watchtower_plugin::TowerInfo::set_misbehaving_proof": {"misbehaving_proof"},
         PDBM + "load_towers": {"status"},   # loader: status reconstruction (checked by the sibling-agreement rule below)
     }
+    from .rulekit import generated_keys_persisted
+    generated_keys_persisted(ctx, rr, ("watchtower_plugin::",), PDBM + "store_client_key", "client")
+    # set_tower_status(id, s) leaves a known tower with status s on every path: the retrier's start, the give-up arms and the
+    # hook all rely on the transition they asked for having happened (Running retrier <=> TemporaryUnreachable / SubscriptionError)
+    from .rulekit import enumerate_paths, rel_of_term
+    sts = P.bodies.get(WT + "set_tower_status")
+    if sts is None:
+        rr.anchor_missing(WT + "set_tower_status")
+    else:
+        wblocks = set()
+        for bb in sts.rpo():
+            for st in sts.blocks[bb]["s"]:
+                if st["k"] == "assign" and len(st["d"]) >= 2 and st["d"][-1] == "f:status":
+                    wblocks.add(bb)
+        skipped = []
+        npaths = 0
+        for blocks, facts, ended in enumerate_paths(ctx, sts, [0]):
+            if not ended:
+                continue
+            if not any(f[0] == "variant" and f[2] == "Some" and "get_mut" in og.show(f[1]) and "f:towers" in og.show(f[1]) for f in facts):
+                continue
+            npaths += 1
+            if wblocks & set(blocks):
+                continue
+            same = False
+            for f in facts:
+                if f[0] == "truth":
+                    for op, l, r in rel_of_term(f[1], f[2]):
+                        if op == "Eq" and "f:status" in og.show(l) and og.strip(r) == ("param", sts.id, 3):
+                            same = True
+            if not same:
+                skipped.append(blocks)
+        if npaths and not skipped:
+            rr.ok("set_tower_status: a known tower ends with the requested status on all %d paths (written, or already equal)" % npaths)
+        elif not npaths:
+            rr.fail("set_tower_status:shape", "cannot find the known-tower paths of set_tower_status", where=sts.span)
+        else:
+            rr.fail("set_tower_status:transition-ignored", "WTClient::set_tower_status can return for a known tower without writing the requested status and without having found it already set: a caller's transition is dropped (the retrier runs while the tower still reads Unreachable, so the hook stops feeding it)", where=sts.line_of(skipped[0][-2]) if len(skipped[0]) > 1 else sts.span)
     summary_fields = {f["name"] for f in P.adts.get("watchtower_plugin::TowerSummary", {"variants": [{"fields": []}]})["variants"][0]["fields"]}
     for b in P.bodies.values():
         if not b.id.startswith(("watchtower_plugin::", "watchtower_client::")) or b.kind not in ("fn", "method", "closure", "coroutine"):
